@@ -129,3 +129,44 @@ class LazyField:
 
     def __init__(self, fn):
         self.fn = fn
+
+
+class Coro:
+    """The result of calling an `async def`: not executed until awaited (or spawned)."""
+
+    _pyvc_symbolic = True
+
+    def __init__(self, func, args, kwargs, defcls=None):
+        self.func, self.args, self.kwargs, self.defcls = func, list(args), dict(kwargs), defcls
+        self.started = False
+
+
+class Awaitable:
+    """A library awaitable: `on_await(it)` produces the value (or raises) when awaited."""
+
+    _pyvc_symbolic = True
+
+    def __init__(self, on_await, name="awaitable"):
+        self.on_await, self.name = on_await, name
+
+
+class Modelled:
+    """A library object modelled by the engine: attributes are served by `attrs[name]`."""
+
+    _pyvc_symbolic = True
+
+    def __init__(self, name, attrs=None):
+        self.name = name
+        self.attrs = attrs or {}
+
+    def __repr__(self):
+        return f"Modelled<{self.name}>"
+
+
+class VolatileField:
+    """A location another thread may write (rely): every read calls `read(it)` afresh."""
+
+    _pyvc_symbolic = True
+
+    def __init__(self, read):
+        self.read = read
